@@ -2081,6 +2081,13 @@ func getFunc(n *node) {
 				id = n.interp.callID()
 			}
 			fr2 := newFrame(fr, len(n.types), id)
+			if fr.live() {
+				// The closure keeps the cancellation channel of the evaluation which
+				// created it: use the current one.
+				n.interp.mutex.RLock()
+				fr2.done = reflect.SelectCase{Dir: reflect.SelectRecv, Chan: reflect.ValueOf(n.interp.done)}
+				n.interp.mutex.RUnlock()
+			}
 			d := fr2.data
 			for i, t := range n.types {
 				d[i] = reflect.New(t).Elem()
